@@ -24,6 +24,10 @@ pub enum Transport {
     Path,
     StdinFile,
     StdinPipe,
+    /// stdin whose reads are chunked by the shim (first chunk, then `rest`)
+    StdinChunked,
+    /// the path argument is /dev/stdin (not a regular file) with stdin redirected from a pipe
+    DevStdin,
 }
 
 #[derive(Clone, Debug, Serialize, Deserialize)]
@@ -41,6 +45,11 @@ pub struct Variant {
     /// name of the input file when given by path (its extension may contradict the content)
     #[serde(default)]
     pub filename: Option<String>,
+    /// chunk schedule for Transport::StdinChunked
+    #[serde(default)]
+    pub rd_first: usize,
+    #[serde(default)]
+    pub rd_rest: usize,
 }
 
 #[derive(Clone, Debug, Serialize, Deserialize)]
@@ -93,6 +102,8 @@ fn gen_variant(rng: &mut Rng, payload_vcf: &[u8], l1: bool, thorough: bool) -> V
         env: vec![],
         subdir: false,
         filename: None,
+        rd_first: 0,
+        rd_rest: 0,
     };
     let max_blocks = if thorough { 400 } else { 64 };
     let pick_container = |rng: &mut Rng| *rng.pick(&[Container::VcfGz, Container::Bcf, Container::BcfRaw, Container::VcfGz, Container::Bcf]);
@@ -132,7 +143,9 @@ fn gen_variant(rng: &mut Rng, payload_vcf: &[u8], l1: bool, thorough: bool) -> V
             v.label = "transport".into();
             v.container = *rng.pick(&Container::ALL);
             v.layout = layout_for(rng, v.container);
-            v.transport = *rng.pick(&[Transport::StdinFile, Transport::StdinPipe]);
+            v.transport = *rng.pick(&[Transport::StdinFile, Transport::StdinPipe, Transport::StdinChunked, Transport::StdinChunked, Transport::DevStdin]);
+            v.rd_first = *rng.pick(&[1usize, 2, 3, 5, 17, 18, 19, 29, 64, 300]);
+            v.rd_rest = *rng.pick(&[1usize, 7, 64, 4096, 65536]);
             v.threads = *rng.pick(&[1usize, 4]);
         }
         5 => {
@@ -196,7 +209,7 @@ fn exec_l2(ctx: &mut Ctx, cfg: &Config, bytes: &[u8], v: &Variant) -> l2::ChildR
     }
     args.push("-t".into());
     args.push(v.threads.to_string());
-    let plan = Plan {
+    let mut plan = Plan {
         hashseed: Some(v.hashseed),
         ..Default::default()
     };
@@ -208,6 +221,20 @@ fn exec_l2(ctx: &mut Ctx, cfg: &Config, bytes: &[u8], v: &Variant) -> l2::ChildR
             (Stdin::Null, vec![(name, hexed)])
         }
         Transport::StdinFile => (Stdin::File(hexed), vec![]),
+        Transport::StdinChunked => {
+            plan.input = Some(l2::Target::Stdin);
+            plan.rd_chunks = vec![v.rd_first.max(1)];
+            plan.rd_rest = v.rd_rest.max(1);
+            (Stdin::File(hexed), vec![])
+        }
+        Transport::DevStdin => {
+            args.push("/dev/stdin".to_string());
+            if bytes.len() < l2::max_pipe_payload() {
+                (Stdin::Pipe(hexed), vec![])
+            } else {
+                (Stdin::File(hexed), vec![])
+            }
+        }
         Transport::StdinPipe => {
             if bytes.len() < l2::max_pipe_payload() {
                 (Stdin::Pipe(hexed), vec![])
@@ -294,6 +321,8 @@ impl Prop for C12 {
             env: vec![],
             subdir: false,
             filename: None,
+            rd_first: 0,
+            rd_rest: 0,
         };
         let has_l2 = case.variants.iter().any(|v| !v.l1);
         let has_l1 = case.variants.iter().any(|v| v.l1);
